@@ -86,7 +86,7 @@ def _case(draw):
             for it in large:
                 if it["k"] in ("abs", "pgrp"):
                     it["s"] = -1
-        focus = draw(st.sampled_from(["none", "none", "repeat-abs", "abs-both-sides", "repeat-var"]))
+        focus = draw(st.sampled_from(["none", "none", "repeat-abs", "abs-both-sides", "repeat-var", "abs-variants"]))
         if focus == "repeat-abs":
             inner = draw(_side(cls, 0, False, False, 2))
             tgt = sides[0] if rel == "<=" else sides[-1]
@@ -98,6 +98,31 @@ def _case(draw):
             lo, hi = (sides[0], sides[1]) if rel == "<=" else (sides[1], sides[0])
             lo.append({"s": 1, "k": "abs", "c": {"val": float(big)}, "in": [dict(i) for i in inner]})
             hi.append({"s": 1, "k": "abs", "c": {"val": float(small)}, "in": [dict(i) for i in inner]})
+        elif focus == "abs-variants":
+            # two absolute terms that look alike but are different functions (or the same one written differently)
+            inner = draw(_side(cls, 0, False, False, 3))
+            if len(inner) < 2:
+                inner.append({"s": 1, "k": "var", "c": None, "v": draw(st.sampled_from(VARS))})
+            how = draw(st.sampled_from(["flip-one", "negate-all", "reorder", "flip-last", "scale"]))
+            other = [dict(i) for i in inner]
+            if how == "flip-one":
+                other[0]["s"] = -other[0]["s"]
+            elif how == "flip-last":
+                other[-1]["s"] = -other[-1]["s"]
+            elif how == "negate-all":
+                for i in other:
+                    i["s"] = -i["s"]
+            elif how == "reorder":
+                other = list(reversed(other))
+            else:
+                for i in other:
+                    if i["k"] == "var":
+                        i["c"] = {"val": 2.0 * (i["c"]["val"] if i.get("c") else 1.0)}
+                    else:
+                        i["n"] = {"val": 2.0 * i["n"]["val"]}
+            tgt = sides[0] if rel == "<=" else sides[-1]
+            tgt.append({"s": 1, "k": "abs", "c": draw(_coef(cls)), "in": inner})
+            tgt.append({"s": 1, "k": "abs", "c": draw(_coef(cls)), "in": other})
         elif focus == "repeat-var":
             v = draw(st.sampled_from(VARS))
             for sd in sides:
